@@ -379,22 +379,38 @@ def canon_q(q):
     return out
 
 
-def impl(payload):
+_light = {}
+
+
+def _answers(payload):
+    """(impl answer, model payload) of one case, computed on ONE run of the real code and kept for the whole check: the order of
+    the variables of a simplified quantifier comes out of a Python set of objects of the case's own Environment, so two builds of
+    one payload need not print them in the same order"""
+    key = sexp.dumps(payload)
+    if key in _light:
+        return _light[key]
     r = run_real(payload)
-    if r["error"] and r["error"][0] != "read-error":
-        return r["error"]
-    if payload[0] == "w":
-        return [["tokens"] + r["tokens"]]
-    if r["error"]:
-        return [["tokens"] + r["tokens"], r["error"]]
-    return [["tokens"] + r["tokens"], ["reread", canon_q(enc_prob(r["Q"], expand_init=False))]]
+    if r["error"] and r["error"][0] in ("build-error", "write-error"):
+        out = (r["error"], ["skip", r["error"]])
+    else:
+        mp = [payload[0], enc_prob(r["P"], simplify=True), ["ren"] + r["ren"]]
+        if payload[0] == "w":
+            ans = [["tokens"] + r["tokens"]]
+        elif r["error"]:
+            ans = [["tokens"] + r["tokens"], r["error"]]
+        else:
+            ans = [["tokens"] + r["tokens"], ["reread", canon_q(enc_prob(r["Q"], expand_init=False))]]
+        out = (ans, mp)
+    _light[key] = out
+    return out
+
+
+def impl(payload):
+    return _answers(payload)[0]
 
 
 def model_payload(payload):
-    r = run_real(payload)
-    if r["error"] and r["error"][0] in ("build-error", "write-error"):
-        return ["skip", r["error"]]
-    return [payload[0], enc_prob(r["P"], simplify=True), ["ren"] + r["ren"]]
+    return _answers(payload)[1]
 
 
 # -- the model returns raw (unsimplified) expressions: apply the real Simplifier where the reader does ------------
@@ -477,6 +493,15 @@ def dict_order(q):
     return out
 
 
+def sort_qvars(e):
+    """variable lists of quantifiers, sorted (their order after Simplifier.walk_exists/forall is a set order)"""
+    if isinstance(e, list):
+        if len(e) == 3 and e[0] in ("exists", "forall") and isinstance(e[1], list):
+            return [e[0], sorted(e[1], key=repr), sort_qvars(e[2])]
+        return [sort_qvars(x) for x in e]
+    return e
+
+
 def compare(model_ans, impl_ans):
     if not (isinstance(model_ans, list) and isinstance(impl_ans, list) and len(model_ans) == 2 and len(impl_ans) == 2
             and model_ans[0] and model_ans[0][0] == "tokens"):
@@ -486,7 +511,7 @@ def compare(model_ans, impl_ans):
     m, a = model_ans[1], impl_ans[1]
     if m and m[0] == "reread" and a and a[0] == "reread":
         try:
-            return canon_q(dict_order(simplify_reread(m[1]))) == a[1]
+            return sort_qvars(canon_q(dict_order(simplify_reread(m[1])))) == sort_qvars(a[1])
         except Exception:
             return False
     if m and m[0] == "read-error" and a and a[0] == "read-error":
@@ -860,7 +885,7 @@ def prune(rng, ps):
 
 
 COUNTS = {"quick": {"examples": 5, "mini": 24, "medium": 3, "w": 250},
-          "thorough": {"examples": 10 ** 6, "mini": 70, "medium": 8, "w": 3000}}
+          "thorough": {"examples": 10 ** 6, "mini": 60, "medium": 6, "w": 2500}}
 
 
 def cases(rng, tier):
